@@ -39,6 +39,13 @@ def cases(tier, seed):
                  long_stall=r.choice([0, 0, 0.01]), seed="C14/%d/%d" % (seed, k))
         c["name"] = "%04d-%s-w%d-%s%s%s-%s" % (k, c["port"], dw, "long" if long_run else "short", "-rd" if c["random_data"] else "",
                                                "-ra" if c["random_addr"] else "", c["corrupt"])
+        if k % 3 == 1:
+            # a second run on the same generator / checker instances with other parameters (LFSR / counter / address state
+            # must restart; nothing of the first run may leak into the second)
+            rw2 = r.choice([16, 32, 64])
+            c["second"] = dict(base=r.randrange(0, 64) * rw2 * wb, range_bytes=rw2 * wb, length=r.randint(4, rw2) * wb,
+                               random_data=bool(r.getrandbits(1)), random_addr=False, corrupt=r.choice(["none", "one", "few"]))
+            c["name"] += "-2runs"
         c["cost"] = length_words
         out.append(c)
     # the same two cores on two ports of the real crossbar + controller + reference DRAM (rows, banks, refresh in the way)
@@ -130,15 +137,17 @@ def run_case(c):
 
         def chk_reads():
             return list(s2.rseq)
-    base, end, length = c["base"], c["base"] + c["range_bytes"], c["length"]
-    npos = length // wb
-    res = dict(v=[], errors=None, gen_done=False, chk_done=False, corrupted=[])
+    rounds = [dict(base=c["base"], range_bytes=c["range_bytes"], length=c["length"], random_data=c["random_data"],
+                   random_addr=c["random_addr"], corrupt=c["corrupt"])] + ([c["second"]] if c.get("second") else [])
+    results_per_round = []
     state = dict(done=False)
-    bound = 400 + npos * 120
+    bound = 400 + max(q["length"] for q in rounds) // wb * 120
+    cur = {}
 
     def run_core(core):
-        yield [core.base.eq(base), core.end.eq(end), core.length.eq(length), core.random_data.eq(int(c["random_data"])),
-               core.random_addr.eq(int(c["random_addr"]))]
+        q = cur["q"]
+        yield [core.base.eq(q["base"]), core.end.eq(q["base"] + q["range_bytes"]), core.length.eq(q["length"]),
+               core.random_data.eq(int(q["random_data"])), core.random_addr.eq(int(q["random_addr"]))]
         yield
         yield core.start.eq(1)
         yield
@@ -152,21 +161,34 @@ def run_case(c):
     def main():
         for _ in range(3):
             yield
+        for q in rounds:
+            cur["q"] = q
+            res = dict(v=[], errors=None, gen_done=False, chk_done=False, corrupted=[], g0=len(gen_writes()), c0=len(chk_reads()), q=q)
+            results_per_round.append(res)
+            yield from one_round(q, res)
+            res["g1"], res["c1"] = len(gen_writes()), len(chk_reads())
+            if not (res["gen_done"] and res["chk_done"]):
+                break
+            for _ in range(r.randint(2, 40)):
+                yield
+        state["done"] = True
+
+    def one_round(q, res):
+        npos = q["length"] // wb
         ok = yield from run_core(dut.gen)
         res["gen_done"] = ok
         if not ok:
-            res["v"].append(dict(kind="generator-not-done-within-bound", bound=bound, writes=len(gen_writes()), positions=npos))
-            state["done"] = True
+            res["v"].append(dict(kind="generator-not-done-within-bound", bound=bound, writes=len(gen_writes()) - res["g0"], positions=npos))
             return
         for _ in range(60):
             yield
         # ---- corrupt k stored words (distinct addresses the generator wrote)
-        gw = gen_writes()
+        gw = gen_writes()[res["g0"]:]
         addrs = []
         for (a, d) in gw:
             if a not in addrs:
                 addrs.append(a)
-        kind = c["corrupt"]
+        kind = q["corrupt"]
         k = {"none": 0, "one": 1, "few": min(3, len(addrs)), "many": max(1, len(addrs) // 2), "first": 1, "last": 1}[kind]
         if kind == "first":
             pick = addrs[:1]
@@ -193,27 +215,50 @@ def run_case(c):
         ok = yield from run_core(dut.chk)
         res["chk_done"] = ok
         if not ok:
-            res["v"].append(dict(kind="checker-not-done-within-bound", bound=bound, reads=len(chk_reads()), positions=npos))
+            res["v"].append(dict(kind="checker-not-done-within-bound", bound=bound, reads=len(chk_reads()) - res["c0"], positions=npos))
         res["errors"] = yield dut.chk.errors
         for _ in range(20):
             yield
-        state["done"] = True
 
-    cycles, reason = run_sim(dut, procs + [main()], lambda: state["done"], 2 * bound + 2000, wall_limit=900)
+    cycles, reason = run_sim(dut, procs + [main()], lambda: state["done"], len(rounds) * (2 * bound + 2000), wall_limit=900)
     if reason == "wall":
         return dict(verdict="inconclusive", why="wall-clock watchdog", violations=[], stats={}, nontrivial=False, signature="")
-    v = res["v"] + list(events) + (backend.dfi_events() if backend is not None else [])
-    if reason == "cycle-cap" and not v:
+    v = list(events) + (backend.dfi_events() if backend is not None else [])
+    if reason == "cycle-cap" and not v and not any(x["v"] for x in results_per_round):
         v.append(dict(kind="no-progress"))
-    gw, cr = gen_writes(), chk_reads()
+    tot = dict(positions=0, gen_writes=0, chk_reads=0, corrupted=0, errors=0, repeats=0)
+    for ri, res in enumerate(results_per_round):
+        vr = judge_round(c, res, gen_writes()[res["g0"]:res.get("g1")], chk_reads()[res["c0"]:res.get("c1")], wb, ashift)
+        for x in vr:
+            x["run"] = ri + 1
+            x["runs_on_this_instance"] = len(rounds)
+        v += vr
+        tot["positions"] += res["q"]["length"] // wb
+        tot["gen_writes"] += res.get("g1", res["g0"]) - res["g0"]
+        tot["chk_reads"] += res.get("c1", res["c0"]) - res["c0"]
+        tot["corrupted"] += len(res["corrupted"])
+        tot["errors"] += res["errors"] or 0
+    res0 = results_per_round[0] if results_per_round else dict(gen_done=False, chk_done=False)
+    st = dict(tot, cycles=cycles, gen_done=all(x["gen_done"] for x in results_per_round), chk_done=all(x["chk_done"] for x in results_per_round),
+              runs=len(results_per_round), repeats=sum(x.get("repeats", 0) for x in results_per_round))
+    nontrivial = tot["positions"] >= 16 and st["gen_done"] and st["chk_done"] and len(results_per_round) == len(rounds)
+    sig = "|".join(str(x) for x in (c["port"], dw, c["random_data"], c["random_addr"], c["length"] > c["range_bytes"], c["corrupt"], len(rounds)))
+    return dict(verdict="violated" if v else "held", violations=v[:8], stats=st, nontrivial=bool(nontrivial) or bool(v), signature=sig)
+
+
+def judge_round(c, res, gw, cr, wb, ashift):
+    q = res["q"]
+    v = list(res["v"])
+    base, end = q["base"], q["base"] + q["range_bytes"]
+    npos = q["length"] // wb
     bw, ew = base >> ashift, end >> ashift
     # (1) writes inside [base, end)
     outside = [(i, a) for i, (a, d) in enumerate(gw) if not (bw <= a < ew)]
     if outside:
         i, a = outside[0]
         v.append(dict(kind="generator-write-outside-range", position=i, word_addr=a, base_word=bw, end_word=ew,
-                      offset_words=a - bw, range_bytes=c["range_bytes"], word_bytes=wb, n_outside=len(outside),
-                      random_addr=c["random_addr"], length_words=npos))
+                      offset_words=a - bw, range_bytes=q["range_bytes"], word_bytes=wb, n_outside=len(outside),
+                      random_addr=q["random_addr"], length_words=npos))
     if res["gen_done"] and len(gw) != npos:
         v.append(dict(kind="generator-wrote-wrong-number-of-words", written=len(gw), length_words=npos))
     if res["chk_done"]:
@@ -233,11 +278,8 @@ def run_case(c):
                               corrupted_words=len(res["corrupted"]), repeats=len(ga) - len(set(ga))))
             if len(set(ga)) == len(ga) and exp != len(res["corrupted"]):
                 v.append(dict(kind="harness-inconsistency", differing=exp, corrupted=len(res["corrupted"])))
-    st = dict(positions=npos, gen_writes=len(gw), chk_reads=len(cr), errors=res["errors"], corrupted=len(res["corrupted"]),
-              repeats=len(gw) - len(set(a for a, d in gw)), cycles=cycles, gen_done=res["gen_done"], chk_done=res["chk_done"])
-    nontrivial = npos >= 16 and res["gen_done"] and res["chk_done"]
-    sig = "|".join(str(x) for x in (c["port"], dw, c["random_data"], c["random_addr"], c["length"] > c["range_bytes"], c["corrupt"]))
-    return dict(verdict="violated" if v else "held", violations=v[:8], stats=st, nontrivial=bool(nontrivial) or bool(v), signature=sig)
+    res["repeats"] = len(gw) - len(set(a for a, d in gw))
+    return v
 
 
 def aggregate(results, cases):
